@@ -180,5 +180,102 @@ def inv2d (s : Nat → α) : Nat → α :=
   let irow1 := mul2 irow1 invdet
   fun k => if k < 2 then irow0.get k else irow1.get (k - 2)
 
+def sub2 (a b : V2 α) : V2 α := ⟨a.y0 - b.y0, a.y1 - b.y1⟩
+/-- the `_sd` forms operate on lane 0 and pass lane 1 of the first operand -/
+def mul_sd (a b : V2 α) : V2 α := ⟨a.y0 * b.y0, a.y1⟩
+def add_sd (a b : V2 α) : V2 α := ⟨a.y0 + b.y0, a.y1⟩
+def sub_sd (a b : V2 α) : V2 α := ⟨a.y0 - b.y0, a.y1⟩
+def div_sd (a b : V2 α) : V2 α := ⟨a.y0 / b.y0, a.y1⟩
+/-- `_mm_set_sd(1.0)` -/
+def set_sd_one : V2 α := ⟨1, 0⟩
+/-- `_mm_xor_pd(v, _Sign_PN)`, `_Sign_PN = _mm_set_epi32(0x80000000,0,0,0)`: sign flip of lane 1 -/
+def xorPN (v : V2 α) : V2 α := ⟨v.y0, - v.y1⟩
+/-- `_mm_xor_pd(v, _Sign_NP)`, `_Sign_NP = _mm_set_epi32(0,0,0x80000000,0)`: sign flip of lane 0 -/
+def xorNP (v : V2 α) : V2 α := ⟨- v.y0, v.y1⟩
+
+/-- `_inverse<double,4>` (SSE): eight registers for the four 2x2 sub-matrices, statement by statement -/
+def inv4d (s : Nat → α) : Nat → α :=
+  let A1 := loadu2 s 0
+  let B1 := loadu2 s 2
+  let A2 := loadu2 s 4
+  let B2 := loadu2 s 6
+  let C1 := loadu2 s 8
+  let D1 := loadu2 s 10
+  let C2 := loadu2 s 12
+  let D2 := loadu2 s 14
+  let dA := shuffle_pd A2 A2 1
+  let dA := mul2 A1 dA
+  let dA := sub_sd dA (shuffle_pd dA dA 3)
+  let dB := shuffle_pd B2 B2 1
+  let dB := mul2 B1 dB
+  let dB := sub_sd dB (shuffle_pd dB dB 3)
+  let AB1 := mul2 B1 (shuffle_pd A2 A2 3)
+  let AB2 := mul2 B2 (shuffle_pd A1 A1 0)
+  let AB1 := sub2 AB1 (mul2 B2 (shuffle_pd A1 A1 3))
+  let AB2 := sub2 AB2 (mul2 B1 (shuffle_pd A2 A2 0))
+  let dC := shuffle_pd C2 C2 1
+  let dC := mul2 C1 dC
+  let dC := sub_sd dC (shuffle_pd dC dC 3)
+  let dD := shuffle_pd D2 D2 1
+  let dD := mul2 D1 dD
+  let dD := sub_sd dD (shuffle_pd dD dD 3)
+  let DC1 := mul2 C1 (shuffle_pd D2 D2 3)
+  let DC2 := mul2 C2 (shuffle_pd D1 D1 0)
+  let DC1 := sub2 DC1 (mul2 C2 (shuffle_pd D1 D1 3))
+  let DC2 := sub2 DC2 (mul2 C1 (shuffle_pd D2 D2 0))
+  let d1 := mul2 AB1 (shuffle_pd DC1 DC2 0)
+  let d2 := mul2 AB2 (shuffle_pd DC1 DC2 3)
+  let rd := add2 d1 d2
+  let rd := add_sd rd (shuffle_pd rd rd 3)
+  let iD1 := mul2 AB1 (shuffle_pd C1 C1 0)
+  let iD2 := mul2 AB1 (shuffle_pd C2 C2 0)
+  let iD1 := add2 iD1 (mul2 AB2 (shuffle_pd C1 C1 3))
+  let iD2 := add2 iD2 (mul2 AB2 (shuffle_pd C2 C2 3))
+  let iA1 := mul2 DC1 (shuffle_pd B1 B1 0)
+  let iA2 := mul2 DC1 (shuffle_pd B2 B2 0)
+  let iA1 := add2 iA1 (mul2 DC2 (shuffle_pd B1 B1 3))
+  let iA2 := add2 iA2 (mul2 DC2 (shuffle_pd B2 B2 3))
+  let dA := shuffle_pd dA dA 0
+  let iD1 := sub2 (mul2 D1 dA) iD1
+  let iD2 := sub2 (mul2 D2 dA) iD2
+  let dD := shuffle_pd dD dD 0
+  let iA1 := sub2 (mul2 A1 dD) iA1
+  let iA2 := sub2 (mul2 A2 dD) iA2
+  let d1 := mul_sd dA dD
+  let d2 := mul_sd dB dC
+  let iB1 := mul2 D1 (shuffle_pd AB2 AB1 1)
+  let iB2 := mul2 D2 (shuffle_pd AB2 AB1 1)
+  let iB1 := sub2 iB1 (mul2 (shuffle_pd D1 D1 1) (shuffle_pd AB2 AB1 2))
+  let iB2 := sub2 iB2 (mul2 (shuffle_pd D2 D2 1) (shuffle_pd AB2 AB1 2))
+  let det := add_sd d1 d2
+  let det := sub_sd det rd
+  let iC1 := mul2 A1 (shuffle_pd DC2 DC1 1)
+  let iC2 := mul2 A2 (shuffle_pd DC2 DC1 1)
+  let iC1 := sub2 iC1 (mul2 (shuffle_pd A1 A1 1) (shuffle_pd DC2 DC1 2))
+  let iC2 := sub2 iC2 (mul2 (shuffle_pd A2 A2 1) (shuffle_pd DC2 DC1 2))
+  let rd := div_sd set_sd_one det
+  let rd := shuffle_pd rd rd 0
+  let dB := shuffle_pd dB dB 0
+  let iB1 := sub2 (mul2 C1 dB) iB1
+  let iB2 := sub2 (mul2 C2 dB) iB2
+  let d1 := xorPN rd
+  let d2 := xorNP rd
+  let dC := shuffle_pd dC dC 0
+  let iC1 := sub2 (mul2 B1 dC) iC1
+  let iC2 := sub2 (mul2 B2 dC) iC2
+  let o0 := mul2 (shuffle_pd iA2 iA1 3) d1
+  let o4 := mul2 (shuffle_pd iA2 iA1 0) d2
+  let o2 := mul2 (shuffle_pd iB2 iB1 3) d1
+  let o6 := mul2 (shuffle_pd iB2 iB1 0) d2
+  let o8 := mul2 (shuffle_pd iC2 iC1 3) d1
+  let o12 := mul2 (shuffle_pd iC2 iC1 0) d2
+  let o10 := mul2 (shuffle_pd iD2 iD1 3) d1
+  let o14 := mul2 (shuffle_pd iD2 iD1 0) d2
+  fun k => match k with
+    | 0 => o0.y0 | 1 => o0.y1 | 2 => o2.y0 | 3 => o2.y1
+    | 4 => o4.y0 | 5 => o4.y1 | 6 => o6.y0 | 7 => o6.y1
+    | 8 => o8.y0 | 9 => o8.y1 | 10 => o10.y0 | 11 => o10.y1
+    | 12 => o12.y0 | 13 => o12.y1 | 14 => o14.y0 | _ => o14.y1
+
 end Ops
 end Fastor.Inv.Sse
